@@ -12,6 +12,19 @@ const pathInf = 1 << 30
 // normal exits and are ignored. ok=false when no normal exit is reachable.
 // stopAt, when non-nil, ends a path (counted as an exit) at those instructions.
 func countOnPaths(fn *ssa.Function, from ssa.Instruction, sites map[ssa.Instruction]bool) (min, max int, ok bool) {
+	w := map[ssa.Instruction]int{}
+	for s, b := range sites {
+		if b {
+			w[s] = 1
+		}
+	}
+	return countWeighted(fn, from, nil, w, nil)
+}
+
+// countWeighted is countOnPaths with a weight per designated instruction, an optional
+// start block (instead of `from`), and an optional single target Return (other returns
+// then do not count as exits).
+func countWeighted(fn *ssa.Function, from ssa.Instruction, startBlock *ssa.BasicBlock, sites map[ssa.Instruction]int, target *ssa.Return) (min, max int, ok bool) {
 	if fn.Blocks == nil {
 		return 0, 0, false
 	}
@@ -38,16 +51,19 @@ func countOnPaths(fn *ssa.Function, from ssa.Instruction, sites map[ssa.Instruct
 		n := 0
 		for k := start; k < len(b.Instrs); k++ {
 			ins := b.Instrs[k]
-			if sites[ins] {
+			if wgt := sites[ins]; wgt > 0 {
 				if inCycle[b] {
 					n = pathInf
-				} else if n < pathInf {
-					n++
+				} else {
+					n = addSat(n, wgt)
 				}
 			}
-			switch ins.(type) {
+			switch rr := ins.(type) {
 			case *ssa.Return:
 				r := res{n, n, true}
+				if target != nil && rr != target {
+					r = res{0, 0, false}
+				}
 				if start == 0 {
 					memo[b] = r
 				}
@@ -84,7 +100,9 @@ func countOnPaths(fn *ssa.Function, from ssa.Instruction, sites map[ssa.Instruct
 		return out
 	}
 	var r res
-	if from == nil {
+	if startBlock != nil {
+		r = visit(startBlock, 0)
+	} else if from == nil {
 		r = visit(fn.Blocks[0], 0)
 	} else {
 		// start after `from`; memo must not be polluted with the partial block
@@ -92,12 +110,14 @@ func countOnPaths(fn *ssa.Function, from ssa.Instruction, sites map[ssa.Instruct
 	}
 	// a designated instruction inside a loop may run any number of times
 	var reach map[*ssa.BasicBlock]bool
-	for s := range sites {
-		if !inCycle[s.Block()] {
+	for s, wgt := range sites {
+		if wgt <= 0 || !inCycle[s.Block()] {
 			continue
 		}
 		if reach == nil {
-			if from == nil {
+			if startBlock != nil {
+				reach = reachableBlocks([]*ssa.BasicBlock{startBlock}, nil)
+			} else if from == nil {
 				reach = reachableBlocks([]*ssa.BasicBlock{fn.Blocks[0]}, nil)
 			} else {
 				reach = reachableBlocks(from.Block().Succs, nil)
